@@ -1,4 +1,5 @@
-import GrassProofs.Lemmas.SerializeReadTree
+import GrassProofs.Lemmas.SerializeEmbed
+import GrassProofs.Lemmas.SerializeAlphabet
 /-
   C05 — Output is well-formed, Sass-free CSS and a fixed point of the compiler.
 
@@ -15,8 +16,10 @@ import GrassProofs.Lemmas.SerializeReadTree
           own quote, and reads back to the original string — PROVED  (C05_quoted_wellformed, C05_quoted_roundtrip)
       (3) hasCharsetOrBom out ↔ cs ∧ body has a non-ASCII char — PROVED (C05_charset_iff)
       (4) invisible nodes write nothing; both loops skip the same nodes — PROVED (C05_no_invisible_output_*)
-      (5) sassFree out (no placeholder / & / $var / #{ / Sass at-rule outside strings and comments)
-                                                            — NOT PROVED here (checked on grass's output by the driver)
+      (5) Sass-freeness: the serializer introduces none of `& $ % #` (so no `&`, `$var`, `%placeholder`,
+          `#{…}`) — PROVED for the model alphabet (C05_sass_free, C05_sass_free_partial); the scanner
+          predicate `sassFree` (which also rejects Sass at-rule NAMES, which can only come from the opaque
+          name of an unknown at-rule) is evaluated by the driver on grass's output, not proved.
       (6) readTree (serialize st cs t) = some (canon st t): print → read round trip of the model
                                                             — PROVED (C05_read_roundtrip) for every readable tree;
           the fixed point of grass's REAL parser is checked (recompilation), not proved.
@@ -149,12 +152,45 @@ example : treeReadable .expanded
           (.cons (.comment ['/', '*', '!', 'x', '*', '/'] 4) .nil))) .nil),
      .import ['"', 'u', '"'] none] = true := by decide +kernel
 
-/-- Fixed point of print ∘ read for the model: the text determines the canonical tree, and the
-    canonical tree determines what is read from any other serialisation of the same tree — reading
-    the output, with or without header, in the same style always gives the same tree. -/
-theorem C05_fixed_point_model (st : Style) (cs cs' : Bool) (t : List Stmt) (h : treeReadable st t = true)
-    (hg : hasCharsetOrBom (serialize st false t) = false) :
-    readTree (serialize st cs t) = readTree (serialize st cs' t) := by
-  rw [readTree_serialize st cs t h hg, readTree_serialize st cs' t h hg]
+/-- Fixed point of print ∘ read for the model.  Take the tree `c` the reader returns for the output
+    of `t`, turn it back into statements (`embedTop`: a block becomes an unknown at-rule or a style
+    rule with one opaque selector, an item a body-less at-rule or a verbatim declaration, a comment
+    a comment), serialise again — in any style, with or without header — and read again: the same
+    tree `c` comes back.  So `serialize st cs (embedTop (readTree (serialize st cs t)))` is in the
+    same text class as `serialize st cs t`: both read as `canonTop st t`.
+    Guards: `treeReadable st t`; `embedOk (canonTop st t)` (every canonical text is flat, already
+    squeezed, without raw newline and starts with a non-blank character other than `/`; a block that
+    is not an at-rule has a visible child — a style rule whose only children are dropped comments is
+    printed as `a{}` by the compressed serializer but an empty rule is invisible; declarations have a
+    name and a value; comments are single `/*! … */` tokens that `commentOut · 0` leaves unchanged);
+    and no BOM/`@charset` at the start of either body. -/
+theorem C05_fixed_point_model (st st' : Style) (cs cs' : Bool) (t : List Stmt) (h : treeReadable st t = true)
+    (hg : hasCharsetOrBom (serialize st false t) = false)
+    (he : (canonTop st t).embedOk = true)
+    (hg' : hasCharsetOrBom (serialize st' false (embedTop (canonTop st t))) = false) :
+    (readTree (serialize st cs t)).bind (fun c => readTree (serialize st' cs' (embedTop c))) =
+      readTree (serialize st cs t) := by
+  rw [readTree_serialize st cs t h hg]
+  simp only [Option.bind_some]
+  exact readTree_embed st' cs' _ he hg'
+
+example : (canonTop .compressed
+    [.rule true [⟨false, [.compound [.text ['a']], .comb '>', .compound [.text ['b']]]⟩]
+      (.cons (.decl ['k'] false (.list .comma [.quoted ['{', ';'], .raw ['v']])) .nil),
+     .unknown false ['f'] ['x'] true .nil, .import ['"', 'u', '"'] none]).embedOk = true := by decide +kernel
+
+/-- Sass-freeness at full strength for the model alphabet: the serializer never writes `&`, `$`,
+    `%` or `#` on its own.  If no opaque leaf of the tree (selector texts and combinators, property
+    names, unquoted and quoted atoms, rendered queries, at-rule names/parameters, keyframe selectors,
+    import url/modifiers, rendered comments — `treeLeafFree c t`) contains the character, neither does
+    the output: in particular no `&`, no `$variable`, no `%placeholder` (placeholder selectors are
+    never printed, whatever their name) and no `#{` can appear that was not already text of a leaf.
+    Both styles, with or without header. -/
+theorem C05_sass_free (c : Char) (hc : sassChar c = true) (st : Style) (cs : Bool) (t : List Stmt)
+    (h : treeLeafFree c t = true) : c ∉ serialize st cs t := serialize_NI c hc st cs t h
+
+example : treeLeafFree '%'
+    [.rule true [⟨false, [.compound [.text ['a']]]⟩, ⟨false, [.compound [.placeholder ['p']], .comb '>', .compound [.text ['b']]]⟩]
+      (.cons (.decl ['k'] false (.list .comma [.quoted ['{', '&'], .raw ['v']])) .nil)] = true := by decide +kernel
 
 end Grass.Serialize
